@@ -132,6 +132,11 @@ func genFramePlan(seed uint64, thorough bool) *Plan {
 					a = []string{"LLEN", g.key()}
 				}
 			}
+			if setsExpiry(a) {
+				// the fragmented twin takes more simulated time (clock jumps between
+				// fragments): a deadline would make the replies legitimately differ
+				a = []string{"GET", g.key()}
+			}
 			items = append(items, Item{Args: bs(a...)})
 		}
 		p.Clients = append(p.Clients, Client{Items: items, Depth: 1 + g.r.IntN(8)})
@@ -261,4 +266,23 @@ func runFrameTwin(t *testing.T, plan *Plan, tape *Tape, keepLog bool) *RunResult
 	res.Extra["reassembled"] = res.Stats.Faults["fragmented-delivery"] + res.Stats.Faults["coalesced-commands"]
 	_ = reassembled
 	return res
+}
+
+// setsExpiry: the command can give a key a deadline.
+func setsExpiry(a []string) bool {
+	switch strings.ToUpper(a[0]) {
+	case "SETEX", "PSETEX", "EXPIRE", "PEXPIRE", "EXPIREAT", "PEXPIREAT":
+		return true
+	case "SET", "GETEX":
+		if len(a) < 3 {
+			return false
+		}
+		for _, x := range a[2:] {
+			switch strings.ToUpper(x) {
+			case "EX", "PX", "EXAT", "PXAT":
+				return true
+			}
+		}
+	}
+	return false
 }
